@@ -7,7 +7,7 @@ from ..simdb import SimDB
 
 ID = "C14"
 LEVEL = "exploration"
-RUNS = {"quick": 1500, "thorough": 30000}
+RUNS = {"quick": 3000, "thorough": 40000}
 RULE = (
     "each run: key size drawn from {1,2,3,4,8,20,32} (small sizes favoured), default from {b'', short, 32 bytes}, a key "
     "pool concentrated around a base key (one-bit flips at the first, middle and last positions, random keys), and a "
